@@ -132,13 +132,22 @@ fn state_of(o: &Obs, tw: &Twin) -> u8 {
     }
 }
 
+/// the one known finding that shows at this level (KNOWN_FINDINGS.txt, property C07): a context created over a data
+/// directory WITHOUT symbols.dat has an empty symbol table; the symbol list (grave, Ctrl-0/1, Down on a character
+/// without special symbols) is opened nevertheless and lists nothing
+const KNOWN_EMPTY_SYMBOL_LIST: &str = "FX1-empty-symbol-table-list";
+
 fn fail(out: &mut Out, ctl: &mut Ctl, prop: &'static str, what: &str, seed: u64, profile: &Profile, hist: &[String]) {
-    let n = ctl.emitted.entry(prop).or_insert(0);
+    fail_class(out, ctl, prop, "new", what, seed, profile, hist)
+}
+
+fn fail_class(out: &mut Out, ctl: &mut Ctl, prop: &'static str, class: &'static str, what: &str, seed: u64, profile: &Profile, hist: &[String]) {
+    let n = ctl.emitted.entry(if class == "new" { prop } else { class }).or_insert(0);
     *n += 1;
     if *n > 3 {
         return;
     }
-    out.oracle_fail(prop, "new", &format!("capi_props {} ; trace-seed {} context new2{} calls [{}]", what, seed, profile.text(), hist.join(" ; ")));
+    out.oracle_fail(prop, class, &format!("capi_props {} ; trace-seed {} context new2{} calls [{}]", what, seed, profile.text(), hist.join(" ; ")));
 }
 
 /// one history; returns false when it ended in a verdict
@@ -176,7 +185,8 @@ fn trace(out: &mut Out, ctl: &mut Ctl, seed: u64, n_calls: usize, st: &mut Stats
     let mut pre = unsafe { observe_c(ctx) };
     let t0 = observe_twin(&mut tw);
     let mut ok = true;
-    if let Some((g, c, t, p)) = diff(&pre, &t0) {
+    let statements_only = std::env::var_os("CAPI_PROPS_STATEMENTS_ONLY").is_some();
+    if let Some((g, c, t, p)) = diff(&pre, &t0).filter(|_| !statements_only) {
         fail(out, ctl, p, &format!("glue-mismatch on a new context: {} answers {} , the editor's getter gives {}", g, c, t), seed, &profile, &hist);
         ok = false;
     }
@@ -222,6 +232,10 @@ fn trace(out: &mut Out, ctl: &mut Ctl, seed: u64, n_calls: usize, st: &mut Stats
                 if let Some((g, c, t, p)) = diff(&again, &post) {
                     verdicts.push((p, format!("getter with a side effect: asked a second time {} answers {} , the first time {}", g, c, t)));
                 }
+            }
+            // CAPI_PROPS_STATEMENTS_ONLY=1 (mutation testing of the statement oracles): the glue comparison is switched off
+            if statements_only {
+                verdicts.clear();
             }
             // 2. statements (only on a context whose glue agrees: one defect, one verdict)
             if verdicts.is_empty() {
@@ -286,10 +300,19 @@ fn trace(out: &mut Out, ctl: &mut Ctl, seed: u64, n_calls: usize, st: &mut Stats
             if post.len as usize != post.buf.chars().count() {
                 st.add("observations_with_a_spelled_syllable_in_the_display", 1);
             }
-            if !verdicts.is_empty() {
-                for (p, msg) in verdicts {
+            let empty_open = |o: &Obs| o.selecting() && o.total_choice == 0;
+            let in_known_class = profile.symbols == 2 && (empty_open(&pre) || empty_open(&post));
+            let mut stop = false;
+            for (p, msg) in verdicts {
+                if p == "C07" && in_known_class {
+                    st.add("verdicts_in_known_class_empty_symbol_table_list", 1);
+                    fail_class(out, ctl, p, KNOWN_EMPTY_SYMBOL_LIST, &msg, seed, &profile, &hist);
+                } else {
                     fail(out, ctl, p, &msg, seed, &profile, &hist);
+                    stop = true;
                 }
+            }
+            if stop {
                 ok = false;
                 break;
             }
